@@ -39,6 +39,10 @@ static UNREAD_TOTALS: Mutex<Vec<usize>> = Mutex::new(vec![]);
 
 /// child process: `netsim C14-child <port> <max_packet_length> <expiry> <timeout> [off|v1|v2|v1v2] [limit] [bigstatus]`
 pub fn child(args: &[String]) {
+    // never outlive the check that started this process (a harness that dies must not leave listeners behind)
+    unsafe {
+        libc::prctl(libc::PR_SET_PDEATHSIG, libc::SIGKILL);
+    }
     let port: u16 = args[0].parse().expect("port");
     let mut c = passage::config::Config::default();
     c.address = format!("127.0.0.1:{port}");
